@@ -3,6 +3,7 @@ package main
 import (
 	"fmt"
 	"go/types"
+	"strings"
 
 	"golang.org/x/tools/go/ssa"
 )
@@ -54,9 +55,17 @@ func (x *Exec) addrWrites(addr ssa.Value, li *loopInfo) {
 			}
 			if pa, ok := r.X.Type().Underlying().(*types.Pointer); ok {
 				if at, ok := pa.Elem().Underlying().(*types.Array); ok {
+					inLoopAlloc := false
+					if al, ok := r.X.(*ssa.Alloc); ok && li.blocks[al.Block()] {
+						inLoopAlloc = true
+					}
 					prefix, lt := leafPrefix(at.Elem(), sel)
 					for _, lf := range leavesUnder(lt, prefix) {
-						li.heap[sliceKey(at.Elem(), lf)] = true
+						if inLoopAlloc {
+							li.fresh[sliceKey(at.Elem(), lf)] = true
+						} else {
+							li.heap[sliceKey(at.Elem(), lf)] = true
+						}
 					}
 					return
 				}
@@ -85,8 +94,16 @@ func (x *Exec) addrWrites(addr ssa.Value, li *loopInfo) {
 		}
 		if pa, ok := a.X.Type().Underlying().(*types.Pointer); ok {
 			if at, ok := pa.Elem().Underlying().(*types.Array); ok && !isByte(at.Elem()) {
+				inLoopAlloc := false
+				if al, ok := a.X.(*ssa.Alloc); ok && li.blocks[al.Block()] {
+					inLoopAlloc = true // array allocated in this iteration: only a fresh object is written
+				}
 				for _, lf := range leavesOf(at.Elem()) {
-					li.heap[sliceKey(at.Elem(), lf.Path)] = true
+					if inLoopAlloc {
+						li.fresh[sliceKey(at.Elem(), lf.Path)] = true
+					} else {
+						li.heap[sliceKey(at.Elem(), lf.Path)] = true
+					}
 				}
 				return
 			}
@@ -131,29 +148,37 @@ func (x *Exec) computeWriteSet(li *loopInfo) {
 			case *ssa.Store:
 				x.addrWrites(in.Addr, li)
 			case *ssa.MapUpdate:
-				for _, k := range mapKeys(in.Map.Type().Underlying().(*types.Map)) {
-					li.heap[k] = true
-				}
+				li.mapOps = append(li.mapOps, mapOp{in.Map, in.Map.Type().Underlying().(*types.Map)})
 			case *ssa.Next:
 				if r, ok := in.Iter.(*ssa.Range); ok {
 					li.iters[r] = true
 				}
 			case *ssa.Alloc:
-				// allocation in the loop: alloc set changes
-				if in.Heap {
+				// allocation in the loop: alloc set changes; initialisation writes only the fresh object
+				et := in.Type().(*types.Pointer).Elem()
+				if k, _ := classify(et); in.Heap && k == TStruct {
 					li.heap[allocKey] = true
+					for _, lf := range leavesOf(et) {
+						li.fresh[fieldKey(et, lf.Path)] = true
+					}
+				}
+				if at, ok := et.Underlying().(*types.Array); ok && !isByte(at.Elem()) {
+					li.heap[allocKey] = true
+					for _, lf := range leavesOf(at.Elem()) {
+						li.fresh[sliceKey(at.Elem(), lf.Path)] = true
+					}
 				}
 			case *ssa.MakeMap:
 				li.heap[allocKey] = true
 				for _, k := range mapKeys(in.Type().Underlying().(*types.Map)) {
-					li.heap[k] = true
+					li.fresh[k] = true
 				}
 			case *ssa.MakeSlice:
 				li.heap[allocKey] = true
 				if sl, ok := in.Type().Underlying().(*types.Slice); ok {
 					if k, _ := classify(sl); k != TScalar {
 						for _, lf := range leavesOf(sl.Elem()) {
-							li.heap[sliceKey(sl.Elem(), lf.Path)] = true
+							li.fresh[sliceKey(sl.Elem(), lf.Path)] = true
 						}
 					}
 				}
@@ -174,15 +199,13 @@ func (x *Exec) callWrites(c *ssa.CallCommon, li *loopInfo) {
 	if b, ok := c.Value.(*ssa.Builtin); ok {
 		switch b.Name() {
 		case "delete":
-			for _, k := range mapKeys(c.Args[0].Type().Underlying().(*types.Map)) {
-				li.heap[k] = true
-			}
+			li.mapOps = append(li.mapOps, mapOp{c.Args[0], c.Args[0].Type().Underlying().(*types.Map)})
 		case "append":
 			li.heap[allocKey] = true
 			if sl, ok := c.Args[0].Type().Underlying().(*types.Slice); ok {
 				if k, _ := classify(sl); k != TScalar {
 					for _, lf := range leavesOf(sl.Elem()) {
-						li.heap[sliceKey(sl.Elem(), lf.Path)] = true
+						li.fresh[sliceKey(sl.Elem(), lf.Path)] = true
 					}
 				}
 			}
@@ -215,17 +238,13 @@ func (x *Exec) callWrites(c *ssa.CallCommon, li *loopInfo) {
 		li.heapAll = true
 	}
 	for _, m := range fc.Modifies {
-		keys, ghost, err := x.modKeysStatic(m, fc, c)
-		if err != nil {
-			li.heapAll = true
-			continue
+		if m.Kind == "ident" {
+			if _, ok := x.C.Ghosts[m.Name]; ok {
+				li.ghosts[m.Name] = true
+				continue
+			}
 		}
-		for _, k := range keys {
-			li.heap[k] = true
-		}
-		if ghost != "" {
-			li.ghosts[ghost] = true
-		}
+		li.callMods = append(li.callMods, callMod{c, fc, m})
 	}
 	// pointer-to-local arguments may be written by the callee if it says so (out params)
 	for _, a := range c.Args {
@@ -254,6 +273,7 @@ func (x *Exec) enterLoop(li *loopInfo, st *State) error {
 	x.computeWriteSet(li)
 	// nested loops' write sets are included because li.blocks contains their blocks
 	ord := li.ord
+	li.preSt = st.clone()
 	// loop ghosts: initial values
 	if li.spec != nil {
 		for _, g := range li.spec.Ghosts {
@@ -277,7 +297,58 @@ func (x *Exec) enterLoop(li *loopInfo, st *State) error {
 		}
 	}
 	li.preSt = st.clone()
+	// map writes and callee modifies: precise when the written object is loop-invariant, type-wide otherwise
+	var preciseMaps map[string][]*Term
+	for iter := 0; iter < 10; iter++ {
+		preciseMaps = map[string][]*Term{}
+		grew := false
+		addWide := func(k string) {
+			if !li.heap[k] {
+				li.heap[k] = true
+				grew = true
+			}
+		}
+		for _, mo := range li.mapOps {
+			if ref, ok := x.invariantRef(li.preSt, mo.v, li, 0); ok {
+				for _, k := range mapKeys(mo.mt) {
+					preciseMaps[k] = append(preciseMaps[k], ref)
+				}
+			} else {
+				for _, k := range mapKeys(mo.mt) {
+					addWide(k)
+				}
+			}
+		}
+		for _, cm := range li.callMods {
+			pairs, ok := x.preciseCallMod(li.preSt, cm, li)
+			if ok {
+				for _, p := range pairs {
+					if p.whole {
+						addWide(p.key)
+					} else {
+						preciseMaps[p.key] = append(preciseMaps[p.key], p.ref)
+					}
+				}
+				continue
+			}
+			keys, ghost, err := x.modKeysStatic(cm.m, cm.fc, cm.c)
+			if err != nil {
+				li.heapAll = true
+				continue
+			}
+			for _, k := range keys {
+				addWide(k)
+			}
+			if ghost != "" {
+				li.ghosts[ghost] = true
+			}
+		}
+		if !grew {
+			break
+		}
+	}
 	// havoc the write set
+	var havocedCells []*ssa.Alloc
 	for a := range li.cells {
 		if cur, ok := st.cells[a]; ok && isSMTVal(cur) {
 			et := a.Type().(*types.Pointer).Elem()
@@ -286,7 +357,12 @@ func (x *Exec) enterLoop(li *loopInfo, st *State) error {
 			}
 			nv := x.havocVal(et, "loop."+a.Comment)
 			x.assume(st, x.typeFacts(nv, et))
+			if a.Comment == "rangeindex" && nv.K == VScalar {
+				// the hidden range index starts at -1 and only increments
+				x.assume(st, tCmp(">=", nv.T, intLit(-1)))
+			}
 			st.cells[a] = nv
+			havocedCells = append(havocedCells, a)
 		}
 	}
 	if li.heapAll {
@@ -295,6 +371,47 @@ func (x *Exec) enterLoop(li *loopInfo, st *State) error {
 		for _, k := range sortedKeys(li.heap) {
 			x.havocHeapKey(st, k, "loop")
 		}
+		for _, k := range sortedKeys(li.fresh) {
+			if li.heap[k] {
+				continue
+			}
+			srt, ok := x.heapSort[k]
+			if !ok {
+				continue
+			}
+			// only objects allocated inside the loop are written under this key
+			preAlloc := x.heapGet(li.preSt, allocKey, arr(SInt, SBool))
+			prev := x.heapGet(st, k, srt)
+			nw := x.D.fresh("H."+k+".loopfresh", srt)
+			r := &Term{Op: "r!lf", S: SInt}
+			x.assume(st, tForall([]*Term{r}, tImp(tSelect(preAlloc, r), tEq(tSelect(nw, r), tSelect(prev, r))), []*Term{tSelect(nw, r)}))
+			x.usesAlloc = true
+			st.heap[k] = nw
+		}
+		for _, k := range sortedKeys(preciseMaps) {
+			if li.heap[k] {
+				continue
+			}
+			srt, ok := x.heapSort[k]
+			if !ok {
+				continue
+			}
+			_, vs, _ := arrParts(srt)
+			h := x.heapGet(st, k, srt)
+			done := map[string]bool{}
+			for _, ref := range preciseMaps[k] {
+				if done[ref.String()] {
+					continue
+				}
+				done[ref.String()] = true
+				h = tStore(h, ref, x.D.fresh("loop.map", vs))
+			}
+			st.heap[k] = h
+		}
+	}
+	for _, a := range havocedCells {
+		// references held in locals are nil or allocated (w.r.t. the allocation set at the loop head)
+		x.assume(st, x.refFacts(st, st.cells[a], a.Type().(*types.Pointer).Elem()))
 	}
 	for r := range li.iters {
 		if d, ok := st.iters[r]; ok && !d.isStr {
@@ -402,4 +519,138 @@ func (x *Exec) closeLoop(li *loopInfo, st *State, cond *Term) {
 			x.oblige(s, fmt.Sprintf("loop%d-decreases", li.ord), "", tAnd(tCmp(">=", li.dec0, intLit(0)), tCmp("<", v.T, li.dec0)), li.header.Instrs[0].Pos(), "variant decreases and is bounded below", nil)
 		}
 	}
+}
+
+
+type mapOp struct {
+	v  ssa.Value
+	mt *types.Map
+}
+
+// invariantRef evaluates an SSA value in the loop's pre-state if it is loop-invariant:
+// parameters, loads of cells not written in the loop, and loads of fields not written in the loop
+// (through loop-invariant pointers).
+func (x *Exec) invariantRef(st *State, v ssa.Value, li *loopInfo, depth int) (*Term, bool) {
+	if depth > 6 || li.heapAll {
+		return nil, false
+	}
+	switch v := v.(type) {
+	case *ssa.Parameter:
+		if r, ok := x.regs[v]; ok && r.K == VScalar {
+			return r.T, true
+		}
+	case *ssa.UnOp:
+		if v.Op.String() != "*" {
+			return nil, false
+		}
+		switch a := v.X.(type) {
+		case *ssa.Alloc:
+			if li.cells[a] {
+				return nil, false
+			}
+			if li.blocks[a.Block()] {
+				return nil, false
+			}
+			if cur, ok := st.cells[a]; ok && cur.K == VScalar {
+				return cur.T, true
+			}
+		case *ssa.FieldAddr:
+			base, ok := x.invariantRef(st, a.X, li, depth+1)
+			if !ok {
+				return nil, false
+			}
+			pt := a.X.Type().Underlying().(*types.Pointer).Elem()
+			stt := pt.Underlying().(*types.Struct)
+			f := stt.Field(a.Field)
+			if k, _ := classify(f.Type()); k != TScalar {
+				return nil, false
+			}
+			key := objKey(pt, f.Name())
+			if li.heap[key] {
+				return nil, false
+			}
+			_, srt := classify(f.Type())
+			return tSelect(x.heapGet(st, key, arr(SInt, srt)), base), true
+		}
+	default:
+		if !li.blocks[instrBlock(v)] {
+			if r, ok := x.regs[v]; ok && r.K == VScalar {
+				return r.T, true
+			}
+		}
+	}
+	return nil, false
+}
+
+func instrBlock(v ssa.Value) *ssa.BasicBlock {
+	if in, ok := v.(ssa.Instruction); ok {
+		return in.Block()
+	}
+	return nil
+}
+
+
+type callMod struct {
+	c  *ssa.CallCommon
+	fc *FuncContract
+	m  *Expr
+}
+
+type modPair struct {
+	key   string
+	whole bool
+	ref   *Term
+}
+
+// preciseCallMod evaluates a callee's modifies entry in the loop pre-state when everything it
+// depends on is loop-invariant.
+func (x *Exec) preciseCallMod(pre *State, cm callMod, li *loopInfo) (pairs []modPair, ok bool) {
+	key := x.calleeKey(cm.c)
+	names := x.contractParamNames(key, cm.fc, cm.c)
+	ptypes := calleeParamTypes(cm.c, cm.fc, x.P.funcs[key])
+	vars := map[string]*Val{}
+	args := cm.c.Args
+	if cm.c.IsInvoke() {
+		args = append([]ssa.Value{cm.c.Value}, args...)
+	}
+	for i, n := range names {
+		if i >= len(args) || i >= len(ptypes) || ptypes[i] == nil {
+			continue
+		}
+		if ref, ok := x.invariantRef(pre, args[i], li, 0); ok {
+			vars[n] = scalar(ref, ptypes[i])
+		}
+	}
+	defer func() {
+		if r := recover(); r != nil {
+			pairs, ok = nil, false
+		}
+	}()
+	ctx := &SpecCtx{st: pre, old: pre, vars: vars, pkg: cm.fc.Pkg}
+	// the entry must only read loop-invariant locations: approximate by requiring that evaluation succeeds with the
+	// invariant arguments alone and that every field it reads is outside the type-wide write set (checked through
+	// a shadow state whose written keys are poisoned).
+	shadow := pre.clone()
+	for k := range li.heap {
+		if s, has := x.heapSort[k]; has {
+			shadow.heap[k] = &Term{Op: "POISON", S: s}
+		}
+	}
+	sctx := &SpecCtx{st: shadow, old: shadow, vars: vars, pkg: cm.fc.Pkg}
+	poisoned := false
+	err := x.frameAllow(sctx, cm.m, func(key string, whole bool, ref *Term) {
+		if ref != nil && strings.Contains(ref.String(), "POISON") {
+			poisoned = true
+		}
+	})
+	if err != nil || poisoned {
+		return nil, false
+	}
+	err = x.frameAllow(ctx, cm.m, func(key string, whole bool, ref *Term) {
+		pairs = append(pairs, modPair{key, whole, ref})
+	})
+	if err != nil {
+		return nil, false
+	}
+	return pairs, true
 }
